@@ -1,0 +1,13 @@
+//go:build verif
+
+package p9p
+
+// Lemma functions for the contracts in verif_contracts.go (build tag verif only; never called).
+// The loop is the induction: p9vc verifies each function against its contract like any other
+// function, and the contract, universally quantified over the parameters, is then available
+// to other proofs as a named fact.
+
+func lemmaNamesMono(s []string, n, m int) {
+	for i := n; i < m; i++ {
+	}
+}
